@@ -486,16 +486,9 @@ func (db *DB) InsertRows(ctx context.Context, rows interface{}, chunkSize int) e
 		rowsData[i] = val.Index(i).Interface()
 	}
 
-	var tx *sql.Tx
-	if !db.HasTx(ctx) {
-		var err error
-		ctx, tx, err = db.WithTx(ctx)
-		if err != nil {
-			return err
-		}
-		defer tx.Rollback()
-	}
-
+	// Build and check every chunk before executing any of them, so that a row
+	// outside the limits fails the whole call without touching the database.
+	var queries []*BatchInsertQuery
 	for j := 0; j < len(rowsData); j += chunkSize {
 		sliceLength := chunkSize
 		if len(rowsData) < j+sliceLength {
@@ -514,8 +507,21 @@ func (db *DB) InsertRows(ctx context.Context, rows interface{}, chunkSize int) e
 				return err
 			}
 		}
-		_, err = db.execWithTrace(ctx, query, "InsertRows")
+		queries = append(queries, query)
+	}
+
+	var tx *sql.Tx
+	if !db.HasTx(ctx) {
+		var err error
+		ctx, tx, err = db.WithTx(ctx)
 		if err != nil {
+			return err
+		}
+		defer tx.Rollback()
+	}
+
+	for _, query := range queries {
+		if _, err := db.execWithTrace(ctx, query, "InsertRows"); err != nil {
 			return err
 		}
 	}
@@ -548,16 +554,9 @@ func (db *DB) UpsertRows(ctx context.Context, rows interface{}, chunkSize int) e
 		rowsData[i] = val.Index(i).Interface()
 	}
 
-	var tx *sql.Tx
-	if !db.HasTx(ctx) {
-		var err error
-		ctx, tx, err = db.WithTx(ctx)
-		if err != nil {
-			return err
-		}
-		defer tx.Rollback()
-	}
-
+	// Build and check every chunk before executing any of them, so that a row
+	// outside the limits fails the whole call without touching the database.
+	var queries []*BatchUpsertQuery
 	for j := 0; j < len(rowsData); j += chunkSize {
 		sliceLength := chunkSize
 		if len(rowsData) < j+sliceLength {
@@ -576,8 +575,21 @@ func (db *DB) UpsertRows(ctx context.Context, rows interface{}, chunkSize int) e
 				return err
 			}
 		}
-		_, err = db.execWithTrace(ctx, query, "UpsertRows")
+		queries = append(queries, query)
+	}
+
+	var tx *sql.Tx
+	if !db.HasTx(ctx) {
+		var err error
+		ctx, tx, err = db.WithTx(ctx)
 		if err != nil {
+			return err
+		}
+		defer tx.Rollback()
+	}
+
+	for _, query := range queries {
+		if _, err := db.execWithTrace(ctx, query, "UpsertRows"); err != nil {
 			return err
 		}
 	}
